@@ -37,6 +37,7 @@ type Options struct {
 	Keep     bool
 	Frame    string
 	Show     string
+	Explain  bool
 	NilAssumed bool
 }
 
@@ -62,6 +63,7 @@ func main() {
 	flag.BoolVar(&o.Keep, "keep", false, "keep the SMT files of discharged obligations")
 	flag.StringVar(&o.Frame, "frame", "", "print the inferred frame of a function and exit")
 	flag.StringVar(&o.Show, "show", "", "debug: ;-separated spec expressions evaluated at exit and shown in counterexamples")
+	flag.BoolVar(&o.Explain, "explain", false, "debug: report the failing conjuncts of failed obligations")
 	flag.Parse()
 	showExprs = o.Show
 
@@ -150,6 +152,9 @@ func debugRun(eng *Engine, o *Options) int {
 			fmt.Printf("   %-10s %-60s %-8s %-7s %.2fs  %s\n", ob.Status, ob.Name, ob.Res.Status, ob.Res.Solver, ob.Res.TimeS, trunc(ob.Desc, 70))
 			if ob.Status == "failed" || ob.Status == "unknown" {
 				rc = 1
+				if o.Explain {
+					explain(eng, o, res, ob)
+				}
 				if o.Verbose {
 					fmt.Println("      file:", ob.File)
 					for _, in := range ob.Inputs {
